@@ -24,10 +24,12 @@ open Avo.Func Avo.Reg
 
 /-! ## Removable nodes -/
 
-/-- A register move onto the same register whose effect is the identity. -/
+/-- A register move onto the same register whose effect is the identity: a two-operand move whose kind
+copies the operand's bytes and clears nothing (`isNoopKind`), or a merge-masked move of a whole ZMM register. -/
 def isNoopMove (i : XInstr) : Bool :=
   match i.ops with
-  | [.reg a, .reg b] => decide (a = b) && movKind i.opcode a b == .plain
+  | [.reg a, .reg b] => decide (a = b) && isNoopKind (movKind i.opcode a b)
+  | [.reg a, .reg k, .reg b] => decide (a = b) && isNoopMasked i.opcode a k b
   | _ => false
 
 /-- x86: the jumps are the `J…` opcodes (`JMP`, `Jcc`, `JCXZ…`); none of them writes a register or a flag. -/
@@ -86,12 +88,19 @@ def walk (res0 : List XNode) : List XNode → List XNode → List Verdict
 
 /-! ## The statement -/
 
+/-- The instruction is a register move onto the same register that leaves EVERY register file unchanged:
+a two-operand move (`execMov`), or a masked move `OPC r, k, r` for every way of blending elements
+(`execMovMasked`, `Blend`). -/
+def NoEffectMove (i : XInstr) : Prop :=
+  (∃ r, i.ops = [.reg r, .reg r] ∧ ∀ σ, execMov i.opcode r r σ = some σ) ∨
+  (∃ r k, i.ops = [.reg r, .reg k, .reg r] ∧ ∀ B σ, execMovMasked B i.opcode r k r σ = some σ)
+
 def Removable (res0 : List XNode) (a : XNode) (suf : List XNode) : Prop :=
   match a with
   | .comment => True
   | .label l => ∀ i, XNode.instr i ∈ res0 → i.cf.labelOp ≠ some l
   | .instr i =>
-    (∃ r, i.ops = [.reg r, .reg r] ∧ ∀ σ, execMov i.opcode r r σ = some σ) ∨
+    NoEffectMove i ∨
     (isJumpOpcode i.opcode = true ∧ ∃ l, i.cf.labelOp = some l ∧ l ∈ leadingLabels suf)
 
 /-- `res` arises from `orig` by deleting removable nodes only (`res0` = the whole result, against which
@@ -124,24 +133,67 @@ theorem Pruned.instrs_kept {res0 orig res} (h : Pruned res0 orig res) (i : XInst
     · exact Or.inr ⟨as, e ▸ hr⟩
     · exact ih hm
 
-theorem isNoopMove_spec (i : XInstr) (h : isNoopMove i = true) :
-    ∃ r, i.ops = [.reg r, .reg r] ∧ ∀ σ, execMov i.opcode r r σ = some σ := by
+/-- A self-move of a kind that clears nothing is the identity. -/
+theorem execMov_noopKind (opcode : String) (r : R) (h : isNoopKind (movKind opcode r r) = true) (σ : RegFile) :
+    execMov opcode r r σ = some σ := by
+  unfold execMov
+  cases hk : movKind opcode r r with
+  | plain => simp only; rw [writeLanes_self]
+  | zext32 => rw [hk] at h; cases h
+  | vecLow64 => rw [hk] at h; cases h
+  | notAMove => rw [hk] at h; cases h
+  | copyZero n top =>
+    rw [hk] at h
+    simp only [isNoopKind, decide_eq_true_eq] at h
+    simp only
+    congr 1
+    funext i l
+    by_cases hi : i = r.id
+    · subst hi
+      simp only [if_true]
+      by_cases hl : l < n
+      · simp [hl]
+      · have : ¬ l < top := by omega
+        simp [hl, this]
+    · simp [hi]
+
+/-- A merge-masked self-move of a whole ZMM register is the identity, however elements are blended. -/
+theorem execMovMasked_noop (B : Blend) (opcode : String) (r k : R) (h : isNoopMasked opcode r k r = true)
+    (σ : RegFile) : execMovMasked B opcode r k r σ = some σ := by
+  unfold isNoopMasked at h
+  have hk : maskedKind opcode r k r = some (7, false) := by simpa using h
+  unfold execMovMasked
+  rw [hk]
+  simp only
+  congr 1
+  funext i l
+  by_cases hi : i = r.id
+  · subst hi
+    simp only [if_true]
+    by_cases hl : l < 7
+    · simp [hl, B.same]
+    · simp [hl]
+  · simp [hi]
+
+theorem isNoopMove_spec (i : XInstr) (h : isNoopMove i = true) : NoEffectMove i := by
   unfold isNoopMove at h
   match hm : i.ops, h with
   | [.reg a, .reg b], h =>
-    simp only [Bool.and_eq_true, decide_eq_true_eq, beq_iff_eq] at h
+    simp only [Bool.and_eq_true, decide_eq_true_eq] at h
     obtain ⟨hab, hk⟩ := h
     subst hab
-    refine ⟨a, rfl, fun σ => ?_⟩
-    unfold execMov
-    rw [hk]
-    simp only
-    rw [writeLanes_self]
+    exact Or.inl ⟨a, hm, execMov_noopKind i.opcode a hk⟩
+  | [.reg a, .reg k, .reg b], h =>
+    simp only [Bool.and_eq_true, decide_eq_true_eq] at h
+    obtain ⟨hab, hk⟩ := h
+    subst hab
+    exact Or.inr ⟨a, k, hm, fun B σ => execMovMasked_noop B i.opcode a k hk σ⟩
   | [], h => simp at h
   | [_], h => simp at h
   | (.other _ :: _), h => simp at h
   | (.reg _ :: .other _ :: _), h => simp at h
-  | (.reg _ :: .reg _ :: _ :: _), h => simp at h
+  | [.reg _, .reg _, .other _], h => simp at h
+  | (.reg _ :: .reg _ :: _ :: _ :: _), h => simp at h
 
 theorem referencedAny_false (res0 : List XNode) (l : String) (h : referencedAny res0 l = false) :
     ∀ i, XNode.instr i ∈ res0 → i.cf.labelOp ≠ some l := by
